@@ -1,4 +1,9 @@
-//go:build verif
+//go:build verif && !verif_nohooks_h2c
+
+// OPTIONAL hooks (file name *_opt.go): they reach unexported helpers.  If a rewrite of the package renames or re-shapes
+// those helpers this file stops compiling; bin/build-harness then builds with the tag verif_nohooks_h2c (the stubs in
+// verif_export_stub.go answer "hook unavailable", the affected requests are skipped and counted), and go2ir never loads
+// *_opt.go files.  The exported suites stay fully compared.
 
 package h2c
 
